@@ -1,45 +1,5 @@
 package slice
 
-func itoaV(i int) string {
-	if i == 0 {
-		return "0"
-	}
-	neg := i < 0
-	if neg {
-		i = -i
-	}
-	var b []byte
-	for i > 0 {
-		b = append([]byte{byte('0' + i%10)}, b...)
-		i /= 10
-	}
-	if neg {
-		return "-" + string(b)
-	}
-	return string(b)
-}
-
-func envInt(name string, def int) int {
-	s := verifEnv(name)
-	if s == "" {
-		return def
-	}
-	n := 0
-	for i := 0; i < len(s); i++ {
-		n = n*10 + int(s[i]-'0')
-	}
-	return n
-}
-
-// verifIntSlice: n symbolic ints name[0..n-1].
-func verifIntSlice(name string, n int) []int {
-	s := make([]int, n)
-	for i := range s {
-		s[i] = verifInt(name + "[" + itoaV(i) + "]")
-	}
-	return s
-}
-
 // verifStrSlice: n symbolic strings of exactly one byte each.
 func verifStrSlice(name string, n int) []string {
 	s := make([]string, n)
@@ -68,15 +28,7 @@ func sameInts(a, b []int) bool {
 }
 
 // expectPanic runs f and reports whether it panicked.
-func expectPanic(f func()) (panicked bool) {
-	defer func() {
-		if r := recover(); r != nil {
-			if _, ok := r.(verifAssumeFailed); ok {
-				panic(r)
-			}
-			panicked = true
-		}
-	}()
-	f()
-	return false
+func expectPanic(f func()) bool {
+	p, _ := tryRun(f)
+	return p
 }
